@@ -806,7 +806,7 @@ func c03Offer(c *fw.C, N *simnet.Node, mb *nom.AccountBlock, kind, mutation, mod
 	// the gossip path ignores a block whose identifier (hash, height) is already pooled: make sure the node does not
 	// hold the honest original of a stale-hash mutant, or "no error" would say nothing about the mutant
 	if N.Chain.GetPatch(mb.Address, mb.Identifier()) != nil {
-		c03WipePool(N)
+		c03WipePool(c, N)
 	}
 	var err error
 	panicked := ""
@@ -879,7 +879,7 @@ func c03Offer(c *fw.C, N *simnet.Node, mb *nom.AccountBlock, kind, mutation, mod
 	if accepted {
 		c.Count("mutants_accepted", 1)
 		// clean N's pool: the pool lives in memory only
-		defer c03WipePool(N)
+		defer c03WipePool(c, N)
 		if why != "" {
 			c.Violation(fmt.Sprintf("invalid-block-accepted %s-enforcement %s: %s", regime, kind, why), map[string]interface{}{"mutation": mutation, "attacker_model": model, "ingress_path": path,
 				"block_type": mb.BlockType, "address": mb.Address.String(), "height": mb.Height})
@@ -909,7 +909,7 @@ var c03PathCounter int
 // of restarting the node; offers go through the bridge only.
 var c03KeepVerifier bool
 
-func c03WipePool(N *simnet.Node) {
+func c03WipePool(c *fw.C, N *simnet.Node) {
 	if !c03KeepVerifier {
 		N.Restart()
 		return
@@ -919,12 +919,32 @@ func c03WipePool(N *simnet.Node) {
 		N.Restart()
 		return
 	}
-	batch := simnet.CloneBatch(N.Range(top.Height, top.Height))
-	prev, _ := N.Chain.GetFrontierMomentumStore().GetMomentumByHeight(top.Height - 1)
+	// roll back far enough to take away the youngest momentum that a pooled block acknowledges (at most 6 momentums)
+	to := top.Height - 1
+	for _, b := range N.Chain.GetAllUncommittedAccountBlocks() {
+		if h := b.MomentumAcknowledged.Height; h >= 3 && h-1 < to && top.Height-(h-1) <= 6 {
+			to = h - 1
+		}
+	}
+	batch := simnet.CloneBatch(N.Range(to+1, top.Height))
+	prev, _ := N.Chain.GetFrontierMomentumStore().GetMomentumByHeight(to)
 	ins := N.Chain.AcquireInsert("c03 wipe pool")
 	err := N.Chain.RollbackTo(ins, prev.Identifier())
 	ins.Unlock()
 	if err == nil {
+		// between the rollback and the re-insert: whatever the pool still holds counts as accepted, so it must still
+		// acknowledge a momentum of the node's chain (the rolled-back one is not on it at this moment)
+		st := N.Chain.GetFrontierMomentumStore()
+		for _, b := range N.Chain.GetAllUncommittedAccountBlocks() {
+			c.Eval(1)
+			m, _ := st.GetMomentumByHeight(b.MomentumAcknowledged.Height)
+			if m == nil || m.Hash != b.MomentumAcknowledged.Hash {
+				c.Violation("pooled-block-survives-rollback-of-the-momentum-it-acknowledges", map[string]interface{}{"block_type": b.BlockType, "address": b.Address.String(), "height": b.Height,
+					"acknowledges_height": b.MomentumAcknowledged.Height, "frontier_after_rollback": prev.Height})
+				break
+			}
+		}
+		c.Count("pools_audited_between_rollback_and_reinsert", 1)
 		_, err = N.InsertChain(batch)
 	}
 	if err != nil || len(N.Chain.GetAllUncommittedAccountBlocks()) != 0 {
